@@ -77,7 +77,8 @@ Section Mixed.
 
   (* what a log machine must honour *)
   Definition log_contract : Prop :=
-    (forall sp l a j, ext_m (nth j (outs sp l) []) (nth j (outs sp (l ++ a)) [])) /\       (* outputs only grow *)
+    (forall sp l j t k, done sp l = false -> accept sp l j = true ->
+        ext_m (nth k (outs sp l) []) (nth k (outs sp (l ++ [(j, t)])) [])) /\              (* outputs only grow *)
     (forall sp l, length (outs sp l) = s_nout sp) /\
     (forall sp l o, done sp l = true -> In o (outs sp l) ->
         exists d s, o = d ++ [E s] /\ term_free_m d) /\                                     (* terminate(): one token, last *)
